@@ -34,5 +34,6 @@ class Updater(Thread):
             r = requests.get("https://api.github.com/repos/ascmitc/mhl/releases/latest")
             r.raise_for_status()
             self.latest_version = version.parse(r.json().get("tag_name"))
-        except requests.exceptions.RequestException:
+        # nothing that goes wrong while looking for a newer release may reach the user: an exception escaping this daemon thread prints a traceback and can abort the interpreter at shutdown (exit status 134 instead of the command's own)
+        except Exception:
             self.finished = True
